@@ -1014,6 +1014,27 @@ func nbtDocs(o *hx.Out) {
 			checkReader(o, "nbt."+strings.SplitN(target, ":", 2)[0], rdNBT(file, target), in, []int{1, hdr})
 		}
 	}
+	// ---- documents whose arrays DECLARE more than the stream holds (the stream ends before the declared
+	// payload is complete): every target must report an error - a declared size is not a reason to stop
+	// reading successfully.  Sizes around the points where 4*n and 8*n leave int32.
+	for _, hd := range [][]byte{
+		{0x0b, 0x20, 0x00, 0x00, 0x00}, {0x0b, 0x40, 0x00, 0x00, 0x00}, {0x0b, 0x40, 0x00, 0x00, 0x02}, {0x0b, 0x7f, 0xff, 0xff, 0xff},
+		{0x0c, 0x10, 0x00, 0x00, 0x00}, {0x0c, 0x20, 0x00, 0x00, 0x01}, {0x0c, 0x7f, 0xff, 0xff, 0xff}, {0x0b, 0x1f, 0xff, 0xff, 0xff},
+		{0x07, 0x7f, 0xff, 0xff, 0xff}, {0x09, 0x03, 0x40, 0x00, 0x00, 0x00},
+	} {
+		for _, tail := range []int{0, 3, 8, 40} {
+			in := append(append([]byte{}, hd...), r.Bytes(tail)...)
+			for _, target := range []string{"any", "raw", "dyn", "snbt"} {
+				rdr := rdNBT(false, target)
+				var err error
+				p := hx.Try(func() { _, err = rdr.run(bytes.NewReader(in)) })
+				o.Eval("nbt.declared-beyond-stream."+target, true, fmt.Sprintf("%s %s", target, hx.Hex(in)))
+				if p != "" || err == nil {
+					o.Fail("C09.eof.nbt."+target, "input=%s declares more than the stream holds: err=%v panic=%q (want an error)", hx.Hex(in), err, p)
+				}
+			}
+		}
+	}
 	// ---- typed struct destination: documents written by the encoder from struct values
 	for i := 0; i < o.N(10, 6); i++ {
 		v := genOuter(r)
